@@ -280,6 +280,11 @@ def forcing_sites(ctx, rule="R13.3"):
                       "%s(...) argument term %s%s is a coordinate in degrees times deg_2_rad (exactly once)" % (ast.unparse(c.func), "*".join(num), ("/" + "/".join(den)) if den else ""),
                       "radians:%s:%s" % (ast.unparse(c.func), ",".join(reads)))
     ctx.floor(rule, "coordinate terms inside trigonometric functions of dist_haversine", n_tr, 6)
+    # central angle from the haversine term: 2 * atan2(sqrt(a), sqrt(1 - a))  (equivalently 2 * asin(sqrt(a))); swapped arguments give pi - angle
+    rets = [r for r in ast.walk(dh) if isinstance(r, ast.Return) and r.value is not None]
+    rtxt = ast.unparse(rets[0].value) if len(rets) == 1 else "?"
+    ctx.check(rtxt in ("2.0 * atan2(sqrt(arg), sqrt(1.0 - arg))", "2.0 * asin(sqrt(arg))", "2 * atan2(sqrt(arg), sqrt(1 - arg))"), rule, "variogram/estimator.pyx::dist_haversine",
+              "the central angle is 2 * atan2(sqrt(a), sqrt(1 - a)): %s" % rtxt, "central-angle")
     # field dims
     cm = prog.cls(BASE, "CovModel")
     fd = [ast.unparse(s.value) for s in cm.getters["field_dim"].body if isinstance(s, ast.Return)]
@@ -318,6 +323,9 @@ def anis_writers(ctx, rule="R13.4"):
 
 
 def run(ctx):
+    from .C12 import inverse_pairs
+
+    inverse_pairs(ctx, rule="R13.6")  # the time axis stays out of every spatial rotation only if the plane order matches the angles that set_model_angles zeroes (shared with C12)
     radius_sites(ctx)
     pair_agreement(ctx)
     forcing_sites(ctx)
